@@ -23,6 +23,7 @@ struct Mixed {
     bool        add_only    = false;   // creation ops never touch an object that already exists
     bool        no_reopen_after_failure = false; // C16: a file torn by a reported failure is not opened again
     bool        skip_sd = false;                 // C16 known-finding guard: SD ops are not executed
+    bool        leave_sd_ids_open = false;       // every fourth dataset id is left for SDend to release (C16)
     std::string failed_call;
     std::map<std::pair<int, int>, int64_t> hlen; // harness bookkeeping of H element lengths (not an oracle)
 
@@ -520,7 +521,11 @@ struct Mixed {
                     ctx.probe("sd-without-data");
                 else
                     MX("SDwritedata", SDwritedata(sds, start, NULL, edge, d.data()) == FAIL);
-                MX("SDendaccess", SDendaccess(sds) == FAIL);
+                // every fourth dataset id is not released: SDend has to finish the dataset (and report what goes wrong then)
+                if (leave_sd_ids_open && (o.arg(5) >> 3) % 4 == 1 && !call_failed)
+                    ctx.probe("sd-id-left-to-sdend");
+                else
+                    MX("SDendaccess", SDendaccess(sds) == FAIL);
                 return true;
             }
             ctx.tr((uint64_t)(ix >= 0));
@@ -576,7 +581,10 @@ struct Mixed {
                         }
                     MX("SDwritedata", SDwritedata(sds, start, NULL, dims, d.data()) == FAIL);
                 }
-                MX("SDendaccess", SDendaccess(sds) == FAIL);
+                if (leave_sd_ids_open && (o.arg(1) >> 3) % 4 == 1 && !call_failed)
+                    ctx.probe("sd-id-left-to-sdend");
+                else
+                    MX("SDendaccess", SDendaccess(sds) == FAIL);
                 return true;
             }
             ctx.tr((uint64_t)rank);
